@@ -64,7 +64,7 @@ Fixpoint jwf (t : jtree) : Prop :=
   end.
 
 Lemma escd_skippable s e : escd s e -> skippable_str e.
-Proof. intros [Vs Es] K. apply (burn_string_escaped s e K Vs Es). Qed.
+Proof. intros [_ Hbu] K. apply Hbu. Qed.
 
 (* what may follow a value: anything that is not a number character (a comma, a closing bracket or brace, white space) *)
 Definition vfollow (K : bytes) : Prop := exists c r, K = c :: r /\ is_number_char c = false.
